@@ -53,6 +53,11 @@ fn check_readback(bytes: &[u8], kvs: &[Kv], full: bool) -> Result<(), String> {
     if m.len() != n || m.is_empty() != (n == 0) {
         return Err("Map::len/is_empty".into());
     }
+    // by hand through the public node API
+    let walked = walk_nodes(&f, n + 10)?;
+    if walked != kvs {
+        return Err(format!("walking root()/node()/transitions() gave {} expected {}", kvs_str(&walked), kvs_str(kvs)));
+    }
     // usage variants of the readers: two streams of one object advanced
     // alternately, a stream dropped half way and another started, lookups
     // between two next() calls, clones and conversions
